@@ -1,6 +1,9 @@
 package main
 
-import "strings"
+import (
+	"fmt"
+	"strings"
+)
 
 // Seams says which build-time rewrites a scenario binary needs (see cmd/instrument).
 type Seams struct {
@@ -8,9 +11,12 @@ type Seams struct {
 	MapOrder string // package suffixes (or "all") whose range-over-map sites are controlled
 	Os       string // package suffixes whose destructive os calls go through simos
 	Add      string // verif-relative-file=repo-v2-relative-pkgdir,... (in-package export files)
+	ZkMap    bool   // also control range-over-map in the go-zookeeper/zk client (a writable copy replaces the module)
 }
 
-func (s Seams) key() string { return s.Sync + "|" + s.MapOrder + "|" + s.Os + "|" + s.Add }
+func (s Seams) key() string {
+	return s.Sync + "|" + s.MapOrder + "|" + s.Os + "|" + s.Add + "|" + fmt.Sprint(s.ZkMap)
+}
 
 // Batch is one (scenario, configuration) searched for a property.
 type Batch struct {
@@ -294,7 +300,12 @@ func init() {
 	})
 }
 
-var seamsS3 = Seams{Add: "overlayfiles/d2/zz_verif_export.go=d2"}
+// S3: no sync swap (back end B runs the real primitives), but host selection's two nondeterminism sources are pinned:
+// range-over-map in package d2 iterates in canonical order, and the package-level random generator gets a seeded source
+// The ZooKeeper client's own range-over-map sites (the order in which lost watches are told, which decides which
+// TreeCache resyncs first) are pinned the same way, in a writable copy of the module the bubble module is pointed at
+// (the go command refuses overlays below GOMODCACHE).
+var seamsS3 = Seams{MapOrder: "d2", ZkMap: true, Add: "overlayfiles/d2/zz_verif_export.go=d2"}
 
 func s3b(cfg string, quick, thorough int) Batch {
 	scen := "zk"
